@@ -34,13 +34,16 @@ MENU = ['fail', 'error', 'fail@1', 'error@2', 'sub_skip', 'uxs', 'skip_dec', 'sk
 # test objects whose countTestCases() is not 1 (the runner counts a test
 # object as countTestCases() tests)
 CMENU = [{'s': 'pass', 'ctc': 0}, {'s': 'fail', 'ctc': 0}, {'s': 'pass', 'ctc': 3}]
+# a failing / erroring test with a non-ASCII name, for children whose stderr
+# is latin-1 (a legacy locale, PYTHONIOENCODING)
+LMENU = [{'s': 'fail', 'mn': 'caf\xe9'}, {'s': 'error', 'mn': 'gr\xf6\xdfe'}]
 HMENU = [{'s': 'sub:1,1,0', 'subm': 'page one\x0cpage two\u2028three\x85four\x1cfive\x0bsix'}]
 DMENU = [{'dt': 'string', 's': 'fail', 'dk': 'diff'}, {'dt': 'file', 's': 'fail', 'dk': 'exc'},
          {'dt': 'string', 's': 'pass'}, {'dt': 'file', 's': 'pass'}]
 MODEARGS = {'seq': [], 'j2': ['-j2'], 'j3': ['-j3'], 'j20': ['-j20'],
             # children whose real stderr carries more text after the report
             # (atexit handlers, interpreter shutdown messages)
-            'j2+late': ['-j2'],
+            'j2+late': ['-j2'], 'j2+latin1': ['-j2'],
             # other formatters / verbosity: the numbers must not depend on them
             'p': ['-p'], 'v4': ['-vvvv'], 'c': ['-c'], 'slow': ['--slow-test', '0'],
             'p+j2': ['-p', '-j2'], 'c+j2': ['-c', '-j2'], 'autoprogress': ['--auto-progress']}
@@ -48,7 +51,7 @@ FMT_MODES = ['p', 'v4', 'c', 'slow', 'p+j2', 'c+j2', 'autoprogress']
 
 
 def _o_filter(case):
-    return case[0] != 'cwd' and case[4] == 0 and case[6] in ('seq', 'j2') and case[0] in ('A1B2c', 'N1B2C1')
+    return case[0] not in ('cwd', 'profile') and case[4] == 0 and case[6] in ('seq', 'j2') and case[0] in ('A1B2c', 'N1B2C1')
 
 
 ENV_PASSES = [{'name': 'python -O', 'argv': ['-O'], 'env': {}, 'filter': _o_filter}]
@@ -60,6 +63,16 @@ def cases(tier, seed):
     modes = ['seq', 'j2', 'j2+late'] if tier == 'quick' else ['seq', 'j2', 'j3', 'j2+late']
     for where in ('unit', 'layer_test'):
         yield ['cwd', where, 'resumed']
+    # --profile together with layer subprocesses (real processes: two
+    # profilers cannot be nested in one interpreter)
+    for mode in ('j2', 'resumed'):
+        yield ['profile', mode, None]
+    for shape in ('N1B2C1', 'A2B1i', 'U1A2'):
+        nslots = len(ow.SHAPES[shape][1])
+        for sc in ow.placements(nslots, LMENU, 2):
+            if all(x == 'pass' for x in sc):
+                continue
+            yield [shape, sc, {}, 0, 1, 1, 'j2+latin1']
     # a world that is not small: 12 layers x 40 tests + 30 unit tests
     for nie in (None, 0, 5):
         for mode in ('seq', 'j2', 'j3', 'p', 'c+j2'):
@@ -99,6 +112,29 @@ def setup_worker():
     runrt._mods()
 
 
+def run_profile(mode):
+    A = {'n': 'A', 'b': [], 'k': 'c', 'h': list(worlds.HOOKS_SD)}
+    if mode == 'resumed':
+        A['f'] = {'tearDown': 'NIE'}
+    layers = [A, {'n': 'B', 'b': [], 'k': 'c', 'h': list(worlds.HOOKS_SD)},
+              {'n': 'C', 'b': [], 'k': 'c', 'h': list(worlds.HOOKS_SD)}]
+    tests = [{'n': 'a0', 'l': 'A', 's': 'pass'}, {'n': 'a1', 'l': 'A', 's': 'pass'},
+             {'n': 'b0', 'l': 'B', 's': 'fail'}, {'n': 'b1', 'l': 'B', 's': 'pass'},
+             {'n': 'c0', 'l': 'C', 's': 'error'}, {'n': 'c1', 'l': 'C', 's': 'pass'}]
+    spec = {'layers': layers, 'tests': tests}
+    from vt import env
+    pd = env.scratch('vtprof')
+    res = runrt.run_cli(spec, ['--profile', 'cProfile', '--profile-directory', pd] + (['-j2'] if mode == 'j2' else []), timeout=120)
+    env.rmtree(pd)
+    viol = []
+    m = runrt.TOTAL_RE.search(res.text)
+    got = tuple(int(x) for x in m.groups()[:3]) if m else None
+    if got != (6, 1, 1):
+        viol.append({'clause': 'total_line', 'sig': {'part': 'profile', 'mode': mode},
+                     'detail': '--profile cProfile %s: Total %s, really 6 tests, 1 failure, 1 error\n%s' % (mode, got, res.text[-1200:])})
+    return {'evals': 1, 'nontrivial': 1, 'violations': viol, 'outcome': 'profile', 'nogate': True}
+
+
 def run_cwd(where, mode):
     # real processes, relative search path, a test that changes the cwd (shared
     # with C03): the totals must still count every layer
@@ -115,6 +151,8 @@ def _ran_lines(b):
 
 
 def run_case(case):
+    if case[0] == 'profile':
+        return run_profile(case[1])
     if case[0] == 'cwd':
         return {'evals': 1, 'nontrivial': 1, 'violations': run_cwd(case[1], case[2]),
                 'outcome': 'cwd', 'nogate': True}
@@ -132,7 +170,8 @@ def run_case(case):
     if mode == 'j2+late':
         def hook(layer, args):
             return ('mangle', lambda out, err: (out, err + b'Exception ignored in: <function f at 0x7f>\nlate text on stderr\n'))
-    res = runrt.run_world(spec, argv, child_hook=hook)
+    res = runrt.run_world(spec, argv, child_hook=hook,
+                          child_stderr_encoding='latin-1' if mode == 'j2+latin1' else None)
     sv = monitors.SpecView(spec)
     truth = ow.Truth(spec, res)
     kinds = sorted({((s.get('dt', '') + s['s'] + ('+subm' if 'subm' in s else '') + ('+ctc%d' % s['ctc'] if 'ctc' in s else '')) if isinstance(s, dict) else s) for s in sc if s != 'pass'})
@@ -214,6 +253,13 @@ def run_case(case):
     # ---- names
     ftests, flayers, fsubs, fother = ow.split_names(res.failures or [])
     etests, elayers, esubs, eother = ow.split_names(res.errors or [])
+    if mode == 'j2+latin1':
+        # names that went through a latin-1 pipe arrive with replacement
+        # characters: compare their ASCII skeletons
+        ftests = collections.Counter({ow.asciify(k): v for k, v in ftests.items()})
+        etests = collections.Counter({ow.asciify(k): v for k, v in etests.items()})
+        truth.fail = collections.Counter({ow.asciify(k): v for k, v in truth.fail.items()})
+        truth.err = collections.Counter({ow.asciify(k): v for k, v in truth.err.items()})
     if ftests != truth.fail or flayers or fsubs or fother:
         V('failure_list', 'Runner.failures=%s really failed=%s' % (res.failures, dict(truth.fail)))
     if etests != truth.err or esubs or eother:
